@@ -2281,4 +2281,15 @@ def calmOps : List Op := [
   .begin, .txUpdate 6 0 (.idEq 2) [(1, 1)], .commit 6,
   .createTable 1, .createIndex 1 0]
 
+/-- the shape of the seeded regression C09_2: three columns (0 = hash-indexed, 1 = b-tree-indexed,
+    2 = not indexed), three committed rows, transaction 3 open -/
+def sameValueSetup : List Op := [.createTable 3, .createIndex 0 0, .createBtree 0 1,
+  .insert 0 [1, 3, 100], .insert 0 [1, 5, 200], .insert 0 [2, 7, 300], .begin]
+
+/-- an ORM-style "write all columns" UPDATE of row 1: column 2 changes, the indexed columns 0 and 1
+    are written back with the values the row already holds -/
+def sameValueUpd : List (Nat × Int) := [(0, 1), (1, 5), (2, 150)]
+
+def sameValueOps : List Op := sameValueSetup ++ [.txUpdate 3 0 (.idEq 1) sameValueUpd]
+
 end Neumann.RelTx.Props
